@@ -28,7 +28,7 @@ QUICK_KINDS = ["tunnel-refused", "socks-refused", "direct-h1", "direct-tls-h1", 
 CONTEXTS = ["alone", "queued-other", "sibling", "pool-timeout"]
 SHAPES = ["get", "post2", "stream2"]
 FAULTS = {"connect": ["ConnectError", "ConnectTimeout"], "start_tls": ["ConnectError", "ConnectTimeout"],
-          "read": ["ReadError", "ReadTimeout", "eof"], "write": ["WriteError", "WriteTimeout"]}
+          "read": ["ReadError", "ReadTimeout", "eof", "garbage"], "write": ["WriteError", "WriteTimeout"]}
 STYLES = ["task", "scope"]
 
 
@@ -429,7 +429,7 @@ def random_cases(draw):
             case["cancel"] = {"style": draw(st.sampled_from(STYLES)), "at": draw(st.integers(1, 40))}
         else:
             at = draw(st.integers(0, 40))
-            faults.append({"at": at, "fault": draw(st.sampled_from(["error", "error", "timeout", "eof"]))})
+            faults.append({"at": at, "fault": draw(st.sampled_from(["error", "error", "timeout", "eof", "garbage"]))})
     case["faults"] = faults
     return case
 
@@ -443,7 +443,7 @@ RULE5 = ("enumerated layer: connection kind (direct h1 plain/TLS, h2 via ALPN / 
          "h1/h2/https-proxy, SOCKS5 plain/auth/TLS/h2) x context (alone; one request for another origin queued at max_connections=1; a sibling "
          "request to the same origin) x shape (GET, POST with a 2-chunk body, streamed response closed after 2 chunks). Each base scenario is "
          "run fault-free under the fair schedule; then one run for EVERY fault-eligible network op index x every documented fault kind of that "
-         "op (connect/start_tls: ConnectError, ConnectTimeout; read: ReadError, ReadTimeout, EOF; write: WriteError, WriteTimeout) and one run "
+         "op (connect/start_tls: ConnectError, ConnectTimeout; read: ReadError, ReadTimeout, EOF, garbage (malformed peer bytes -> protocol error); write: WriteError, WriteTimeout) and one run "
          "for EVERY suspension point of the victim x {asyncio task.cancel(), anyio CancelScope.cancel()}. thorough: all 13 kinds x 3 x 3; quick: "
          "8 kinds, a fixed third of the context/shape grid. random layer: drawn kind/context/shape, max_connections 1-3, 1-2 faults / a "
          "cancellation at drawn positions, drawn schedule and read segmentation. Non-trivial: the fault or cancellation actually fired; "
@@ -460,7 +460,7 @@ PROP = Prop(
     layers=[
         Layer("enumerated", cases=enum_cases, execute=make_execute("C05")),
         Layer("random", strategy=random_cases, execute=make_execute("C05"), budget={"quick": 1200, "thorough": 60000}),
-        Layer("sync-faults", cases=sync_cases, execute=make_sync_execute("C05")),
+        Layer("sync-faults", stall_is_violation=True, cases=sync_cases, execute=make_sync_execute("C05")),
     ],
     assumptions=ASSUME,
     explanation="The enumerated layer is exhaustive over fault positions x kinds and cancellation points x styles for the listed base scenarios.",
